@@ -6,7 +6,7 @@ import re
 from fractions import Fraction
 
 from . import engine as E
-from .engine import SymNum, SymInt, SymReal, SymBool, Lin, ModelGap, cur
+from .engine import SymNum, SymInt, SymReal, SymBool, SymFrac, Lin, ModelGap, cur
 
 
 def is_sym(x):
@@ -140,18 +140,20 @@ class MathShim(object):
 
     @staticmethod
     def floor(x):
-        if isinstance(x, (SymNum, _LogVal)):
+        if isinstance(x, (SymNum, _LogVal, SymFrac)):
             return x.__floor__()
         return _math.floor(x)
 
     @staticmethod
     def ceil(x):
-        if isinstance(x, SymNum):
+        if isinstance(x, (SymNum, SymFrac)):
             return x.__ceil__()
         return _math.ceil(x)
 
     @staticmethod
     def log(x, *base):
+        if isinstance(x, SymFrac):
+            x = x.mat()
         if isinstance(x, SymNum):
             if base:
                 raise ModelGap("log with base")
@@ -177,7 +179,7 @@ MATH = MathShim()
 
 
 def shim_float(x=0.0):
-    if isinstance(x, SymReal):
+    if isinstance(x, (SymReal, SymFrac)):
         return x
     if isinstance(x, SymInt):
         return SymReal(x.lin)
@@ -195,7 +197,7 @@ def shim_int(x=0, *a):
 
 
 def shim_round(x, nd=None):
-    if isinstance(x, SymNum):
+    if isinstance(x, (SymNum, SymFrac)):
         return x.__round__(nd)
     return builtins.round(x) if nd is None else builtins.round(x, nd)
 
@@ -203,6 +205,10 @@ def shim_round(x, nd=None):
 def shim_pow(a, b, *m):
     if is_sym(a) or is_sym(b):
         raise ModelGap("pow with symbolic operand")
+    if a == 10 and isinstance(b, int) and not isinstance(b, bool) and b < 0 and not m:
+        # floats are reals here: 10**-k is the decimal 1/10^k, not the nearest binary64 (whose error, 5e-18
+        # relative, is IEEE rounding and outside every claim); keeps tick arithmetic in small exact rationals
+        return Fraction(1, 10 ** (-b))
     return builtins.pow(a, b, *m)
 
 
